@@ -857,6 +857,58 @@ theorem reparsed_invoice_signs_to_ascending_stream (b : List UInt8) (rs : List R
   · have h' : ¬ (r.ty ≤ Ldk.Merkle.sigTypesHi) := by simp only [Ldk.Merkle.sigTypesHi]; omega
     simp [Ldk.Merkle.isSig, h']
 
+/-- PARSES BACK (composition with the parser round trip `parseStream_recsBytes`): for every ascending
+    record set of an invoice request and every well-formed signature record, the bytes returned by
+    sign(try_from(unsigned bytes)) PARSE, the parsed stream is strictly ascending, and its
+    non-signature records are exactly the unsigned records; the driver verdict of op `resign` is "ok". -/
+theorem reparsed_invreq_parses_back (b : List UInt8) (rs : List Rec) (sr : Rec)
+    (hparse : parseStream b = some rs) (hasc : rs.Pairwise (fun a b => a.ty < b.ty))
+    (hty : ∀ r ∈ rs, r.ty < INVOICE_REQUEST_TYPES_HI ∨ EXPERIMENTAL_OFFER_TYPES_LO ≤ r.ty)
+    (hsig : Ldk.Merkle.isSig sr = true) (hsr : WF sr) :
+    (∃ out rs', signReparsed invreqSplitIn b sr.recordBytes = some out ∧ parseStream out = some rs' ∧
+      rs'.Pairwise (fun a b => a.ty < b.ty) ∧ Ldk.Merkle.nonSig rs' = rs) ∧
+    resignVerdict invreqSplitIn b sr.recordBytes = "ok" := by
+  obtain ⟨A, B, hAB, hs, hpw, hns⟩ := reparsed_invreq_signs_to_ascending_stream b rs sr hparse hasc hty hsig
+  have hwf : ∀ r ∈ A ++ sr :: B, WF r := by
+    intro r hr
+    rcases List.mem_append.mp hr with h | h
+    · exact parseStream_wf b rs hparse r (by rw [hAB]; exact List.mem_append_left _ h)
+    · rcases List.mem_cons.mp h with rfl | h'
+      · exact hsr
+      · exact parseStream_wf b rs hparse r (by rw [hAB]; exact List.mem_append_right _ h')
+  have hpb := parseStream_recsBytes _ hwf
+  refine ⟨⟨_, _, hs, hpb, hpw, hns⟩, ?_⟩
+  simp [resignVerdict, hs, hparse, hpb, ascendingB_of_pairwise _ hpw, hns]
+
+/-- the same for invoices -/
+theorem reparsed_invoice_parses_back (b : List UInt8) (rs : List Rec) (sr : Rec)
+    (hparse : parseStream b = some rs) (hasc : rs.Pairwise (fun a b => a.ty < b.ty))
+    (hty : ∀ r ∈ rs, r.ty < INVOICE_TYPES_HI ∨ EXPERIMENTAL_OFFER_TYPES_LO ≤ r.ty)
+    (hsig : Ldk.Merkle.isSig sr = true) (hsr : WF sr) :
+    (∃ out rs', signReparsed invoiceSplitIn b sr.recordBytes = some out ∧ parseStream out = some rs' ∧
+      rs'.Pairwise (fun a b => a.ty < b.ty) ∧ Ldk.Merkle.nonSig rs' = rs) ∧
+    resignVerdict invoiceSplitIn b sr.recordBytes = "ok" := by
+  obtain ⟨A, B, hAB, hs, hpw, hns⟩ := reparsed_invoice_signs_to_ascending_stream b rs sr hparse hasc hty hsig
+  have hwf : ∀ r ∈ A ++ sr :: B, WF r := by
+    intro r hr
+    rcases List.mem_append.mp hr with h | h
+    · exact parseStream_wf b rs hparse r (by rw [hAB]; exact List.mem_append_left _ h)
+    · rcases List.mem_cons.mp h with rfl | h'
+      · exact hsr
+      · exact parseStream_wf b rs hparse r (by rw [hAB]; exact List.mem_append_right _ h')
+  have hpb := parseStream_recsBytes _ hwf
+  refine ⟨⟨_, _, hs, hpb, hpw, hns⟩, ?_⟩
+  simp [resignVerdict, hs, hparse, hpb, ascendingB_of_pairwise _ hpw, hns]
+
+/-- non-vacuity of the hypotheses: a well-formed signature record -/
+example : WF ⟨[240], [240, 1, 7]⟩ := ⟨240, 1, 1, 1, by decide, by decide, by decide, by decide⟩
+
+/-- the parser round trip itself, for every list of well-formed records (ascending or not) -/
+theorem parse_roundtrip (rs : List Rec) (h : ∀ r ∈ rs, WF r) : parseStream (recsBytes rs) = some rs :=
+  parseStream_recsBytes rs h
+
+example : parseStream (recsBytes [⟨[88], [88, 1, 3]⟩, ⟨[0xfd, 0x01, 0x00], [0xfd, 0x01, 0x00, 0]⟩]) = some [⟨[88], [88, 1, 3]⟩, ⟨[0xfd, 0x01, 0x00], [0xfd, 0x01, 0x00, 0]⟩] := by decide
+
 /-- `Unsigned*::write ∘ Unsigned*::try_from = id` (KF-C18-2, fixed in f3513c1): whatever the split
     range cuts, the translated write plan of `impl Writeable for UnsignedInvoiceRequest` writes both
     halves in order, so a re-parsed unsigned request serialises to exactly the bytes it was parsed from
